@@ -110,6 +110,10 @@ func ListCar(c *cli.Context) error {
 					fmt.Fprintf(outStream, "\t\t(%d total)\n", 3-max)
 				}
 				// see if it's unixfs.
+				if !pbn.Data.Exists() {
+					fmt.Fprintf(outStream, "\tnot interpretable as unixfs: no data\n")
+					continue
+				}
 				ufd, err := data.DecodeUnixFSData(pbn.Data.Must().Bytes())
 				if err != nil {
 					fmt.Fprintf(outStream, "\tnot interpretable as unixfs: %s\n", err)
